@@ -58,6 +58,33 @@ fn roundtrips<S: Serialize + DeserializeOwned + PartialEq>(s: &S) -> (String, Op
 
 fn ser_state<F: FElem, S: Acc + Serialize + DeserializeOwned + PartialEq>(kind: &str, conf: Confidence, rng: &mut Rng, max_ops: usize) -> String {
     let toks = random_history_pub::<F>(kind, rng, max_ops);
+    ser_state_toks::<F, S>(kind, conf, rng, toks)
+}
+
+/// constant samples of values that are not exactly representable (the one-pass variance rounds to a
+/// tiny negative number for some of them; the accessors clamp it, and the state must still round-trip)
+fn constant_history<F: FElem>(kind: &str, v: f64, n: usize) -> Vec<String> {
+    let one: Vec<String> = match kind {
+        "paired" => vec![crate::prog_ops::fenc_pub::<F>(v), crate::prog_ops::fenc_pub::<F>(v * 0.5)],
+        "unpaired" => vec!["A".into(), crate::prog_ops::fenc_pub::<F>(v)],
+        _ => vec![crate::prog_ops::fenc_pub::<F>(v)],
+    };
+    let mut toks: Vec<String> = vec!["E".into(), "x".into(), format!("{}", n)];
+    for _ in 0..n {
+        toks.extend(one.clone());
+    }
+    if kind == "unpaired" {
+        toks.push("x".into());
+        toks.push(format!("{}", n));
+        for _ in 0..n {
+            toks.push("B".into());
+            toks.push(crate::prog_ops::fenc_pub::<F>(v * 1.5));
+        }
+    }
+    toks
+}
+
+fn ser_state_toks<F: FElem, S: Acc + Serialize + DeserializeOwned + PartialEq>(kind: &str, conf: Confidence, rng: &mut Rng, toks: Vec<String>) -> String {
     let s: S = final_state::<S>(&toks);
     let v = serde_json::to_value(&s).unwrap();
     let (flags, restored) = roundtrips(&s);
@@ -86,6 +113,21 @@ fn ser_state<F: FElem, S: Acc + Serialize + DeserializeOwned + PartialEq>(kind: 
 
 pub fn c20(out: &mut Vec<String>, rng: &mut Rng, tier: &str) {
     let reps = if tier == "thorough" { 300 } else { 40 };
+    let kmax = if tier == "thorough" { 60 } else { 24 };
+    for k in 1..kmax {
+        for n in [1usize, 2, 3, 6, 7, 10, 11] {
+            let v = k as f64 / 10.0;
+            let conf = crate::gen::rand_conf(rng);
+            out.push(ser_state_toks::<f64, Arithmetic<f64>>("arith", conf, rng, constant_history::<f64>("arith", v, n)));
+            if (k + n) % 3 == 0 {
+                out.push(ser_state_toks::<f32, Arithmetic<f32>>("arith", conf, rng, constant_history::<f32>("arith", v, n)));
+                out.push(ser_state_toks::<f64, Geometric<f64>>("geo", conf, rng, constant_history::<f64>("geo", v, n)));
+                out.push(ser_state_toks::<f64, Harmonic<f64>>("harm", conf, rng, constant_history::<f64>("harm", v, n)));
+                out.push(ser_state_toks::<f64, Paired<f64>>("paired", conf, rng, constant_history::<f64>("paired", v, n)));
+                out.push(ser_state_toks::<f64, Unpaired<f64>>("unpaired", conf, rng, constant_history::<f64>("unpaired", v, n)));
+            }
+        }
+    }
     for i in 0..reps {
         let conf = crate::gen::rand_conf(rng);
         let m = if i % 8 == 0 { 150 } else { 30 };
